@@ -219,3 +219,44 @@ package pongo2
 //@   ensures {C11} @first-wins err == nil ==> (exists i int :: 0 <= i && i < len(set.loaders) && loader == set.loaders[i] && (forall j int :: 0 <= j && j < i ==> !LoaderHas(set.loaders[j], ResolvedFor(set.loaders[j], tpl != nil && tpl.isTplString, ite(tpl == nil, "", tpl.name), path))))
 //@   ensures {C11} @missing-everywhere-is-an-error (forall j int :: 0 <= j && j < len(set.loaders) ==> !LoaderHas(set.loaders[j], ResolvedFor(set.loaders[j], tpl != nil && tpl.isTplString, ite(tpl == nil, "", tpl.name), path))) ==> err != nil
 //@   ensures {C11} @all-failed-is-the-only-error err != nil ==> (forall j int :: 0 <= j && j < len(set.loaders) ==> !LoaderHas(set.loaders[j], ResolvedFor(set.loaders[j], tpl != nil && tpl.isTplString, ite(tpl == nil, "", tpl.name), path)))
+
+// ---- Execute variants (C14) ----
+//@ ghost execErr error
+//@ ghost writeErr error
+//@ extern (*bytes.Buffer).WriteTo(b, w) (n, err)
+//@   ghostset writeErr = err
+//@ callers {C14} (*Template).execute (*Template).newBufferAndExecute (*Template).newTemplateWriterAndExecute (*tagSSINode).Execute
+//@ func (*Template).execute
+//@   ghostset execErr = r0
+//@ func (*Template).newBufferAndExecute
+//@   at (*Template).execute requires {C14} @same-template-and-context arg0 == tpl && arg1 == context && fresh(arg2)
+//@   ghostset execErr = r1
+//@   ensures {C14} @error-means-no-buffer (r1 != nil) == (r0 == nil)
+//@ func (*Template).newTemplateWriterAndExecute
+//@   at (*Template).execute requires {C14} @same-template-and-context arg0 == tpl && arg1 == context && typeis(arg2, "*templateWriter") && unbox(arg2, "*templateWriter").w == writer
+//@   ghostset execErr = r0
+//@   ensures {C14} r0 == execErr
+// ExecuteWriter: the caller's writer is handed to nothing but the single final WriteTo, which happens only after a
+// successful execution; its error is returned unchanged
+//@ func (*Template).ExecuteWriter
+//@   onlyflows {C14} writer (*bytes.Buffer).WriteTo
+//@   at (*bytes.Buffer).WriteTo requires {C14} @only-after-success execErr == nil
+//@   ensures {C14} @execution-error-returned execErr != nil ==> r0 == execErr
+//@   ensures {C14} @write-error-returned execErr == nil ==> r0 == writeErr
+//@ func (*Template).ExecuteWriterUnbuffered
+//@   ensures {C14} @same-error r0 == execErr
+//@ func (*Template).Execute
+//@   ensures {C14} @same-error r1 == execErr
+//@   ensures {C14} @no-partial-output r1 != nil ==> r0 == ""
+//@ func (*Template).ExecuteBytes
+//@   ensures {C14} @same-error r1 == execErr
+//@   ensures {C14} @no-partial-output r1 != nil ==> len(r0) == 0
+// the unbuffered writer forwards exactly the bytes it is given to the wrapped writer
+//@ func (*templateWriter).WriteString
+//@   at io.Writer.Write requires {C14} @verbatim arg0 == tw.w && strOfBytes(arg1) == s && len(arg1) == len(s)
+//@ func (*templateWriter).Write
+//@   at io.Writer.Write requires {C14} @verbatim arg0 == tw.w && arg1 == b
+//@ extern bytes.NewBuffer(buf) (r0)
+//@   ensures r0 != nil && fresh(r0)
+//@ extern bytes.NewBufferString(s) (r0)
+//@   ensures r0 != nil && fresh(r0)
